@@ -265,7 +265,7 @@ log_exponent(const BIGNUM * p)
 {
 	uint8_t buf[128]; int n = BN_num_bytes(p), i;
 	if (n > 100 || explen + 2 * (size_t)n + 8 > sizeof(explog)) return;
-	explog[explen++] = explen ? ',' : '=';
+	{ char sep = explen ? ',' : '='; explog[explen++] = sep; }
 	if (BN_is_negative(p)) explog[explen++] = 'n';
 	BN_bn2bin(p, buf);
 	if (n == 0) explog[explen++] = '-';
